@@ -1354,10 +1354,18 @@ def run(ctx, shard):
             with ctx.guard(gname):
                 try:
                     thunk()
-                except (TypeError, AssertionError):
+                except (TypeError, AssertionError) as e:
                     # np.isinf(None) / 'ree > -1e-4' after a failed or inaccurate solve: the solver, not the criterion
                     if len(slog) > n0 and (slog[-1]['value'] is None or slog[-1]['status'] != 'optimal'):
                         ctx.inconclusive('sdp-status:' + str(slog[-1]['status']))
+                        return
+                    # numqi's own accuracy guard of the REE programmes (`assert ree > -1e-4` in _sdp_ree_solve): the Pade / square-root
+                    # approximation of the matrix logarithm went below zero for this (ill-conditioned) state. The function delivers no
+                    # answer at all - it neither accepts nor rejects the state - so the clause "accepts every separable state" is not
+                    # decided by this call: inconclusive, counted by reason (see DESIGN 7.2)
+                    import traceback as _tb
+                    if isinstance(e, AssertionError) and any(fr.name == '_sdp_ree_solve' for fr in _tb.extract_tb(e.__traceback__)):
+                        ctx.inconclusive('ree-sdp-own-accuracy-assertion(status=' + (str(slog[-1]['status']) if len(slog) > n0 else 'unknown') + ')')
                         return
                     raise
 
